@@ -19,7 +19,7 @@ MANIFEST = {
  'design_ref': 'DESIGN.md §6 C06',
 }
 THEOREMS = ['C06.out_tables_ok', 'C06.ctor_line', 'C06.reply_line', 'C06.reply_never_asserts', 'C06.truncate_bound_bytes', 'C06.truncate_keeps_line',
-            'C06.take_line', 'C06.wire_line', 'C06.cut_is_prefix', 'C06.utf8Len_eq', 'C06.copy_bypasses_assertion']
+            'C06.take_line', 'C06.wire_line', 'C06.cut_is_prefix', 'C06.utf8Len_eq', 'C06.copy_without_overrides', 'C06.copy_bypasses_assertion']
 TRUSTED = ['Lean 4.33.0 kernel; axioms ⊆ {propext, Classical.choice, Quot.sound}',
            'harness/extractors/out.py (MAX_LINE_SIZE, isValidArgument characters, _truncateMsg shape, raw-construction inventory → Gen/Out.lean)',
            'harness/c06.py generators + canonicalisation; harness/plugins/VtOut',
